@@ -302,8 +302,15 @@ def run_case(c):
         spec1 = v1_spec(c['root'])
         cls1 = rt.build_type(spec1, reg1)
         auto = rt.spec_has(c['root'], 'auto_tag')
+        m0 = {}
         if auto:
-            LoadMeta(auto_assign_tags=True).bind_to(cls)
+            m0['auto_assign_tags'] = True
+        if c.get('exact_keys'):
+            # non-canonical field names: the well-typed document uses the field names themselves as keys, so that a
+            # spelling that does not resolve back does not turn EVERY document of the class into MissingFields
+            m0['key_transform_with_dump'] = 'NONE'
+        if m0:
+            LoadMeta(**m0).bind_to(cls)
         LoadMeta(v1=True, v1_key_case='AUTO', **({'auto_assign_tags': True} if auto else {})).bind_to(cls1)
         x = rt.build_value(c['value'], reg)
         # history axis: "load first" - the well-typed document is written by the independent reference encoder
